@@ -1,1 +1,108 @@
-fn main(){}
+//! gcv-harness: recorder / replayer for the gc-arena verification framework.
+//!
+//!   gcv-harness replay --in <behaviours.ndjson> --trace <out.ndjson> --report <out.json>
+//!                      [--epilogues c02,drop] [--shard i/n] [--limit N]
+//!
+//! The harness contains no oracle: it executes, observes and records.  Traces are judged by
+//! the TLA+ monitor (spec/GcMonitor.tla) through TLC trace validation.
+
+mod alloc;
+mod heap;
+mod log;
+mod replay;
+mod world;
+
+use std::io::{BufRead, Write};
+
+#[global_allocator]
+pub static ALLOC: alloc::Tracking = alloc::Tracking::new();
+
+fn arg(args: &[String], name: &str) -> Option<String> {
+    args.iter().position(|a| a == name).and_then(|i| args.get(i + 1).cloned())
+}
+
+fn main() {
+    let args: Vec<String> = std::env::args().collect();
+    let verbose = std::env::var("GCV_VERBOSE").is_ok();
+    std::panic::set_hook(Box::new(move |info| {
+        if verbose {
+            eprintln!("[panic] {info}");
+        }
+    }));
+    match args.get(1).map(|s| s.as_str()) {
+        Some("replay") => cmd_replay(&args),
+        _ => {
+            eprintln!("usage: gcv-harness replay ...");
+            std::process::exit(2);
+        }
+    }
+}
+
+fn cmd_replay(args: &[String]) {
+    let input = arg(args, "--in").expect("--in");
+    let trace_path = arg(args, "--trace").expect("--trace");
+    let report_path = arg(args, "--report").expect("--report");
+    let epilogues: Vec<String> =
+        arg(args, "--epilogues").unwrap_or_else(|| "c02,drop".to_string()).split(',').map(|s| s.to_string()).collect();
+    let (shard_i, shard_n) = arg(args, "--shard")
+        .map(|s| {
+            let (a, b) = s.split_once('/').expect("i/n");
+            (a.parse::<usize>().unwrap(), b.parse::<usize>().unwrap())
+        })
+        .unwrap_or((0, 1));
+    let limit = arg(args, "--limit").map(|s| s.parse::<usize>().unwrap()).unwrap_or(usize::MAX);
+
+    let f = std::io::BufReader::new(std::fs::File::open(&input).expect("open input"));
+    let mut out = std::io::BufWriter::new(std::fs::File::create(&trace_path).expect("create trace"));
+    let mut n = 0usize;
+    let mut runs = 0usize;
+    let mut skipped = 0usize;
+    let mut diverged = 0usize;
+    let mut drift_count = 0usize;
+    let mut drift_samples: Vec<serde_json::Value> = Vec::new();
+    let mut ops_total = 0usize;
+    for (idx, line) in f.lines().enumerate() {
+        let line = line.expect("read");
+        if line.trim().is_empty() || idx % shard_n != shard_i {
+            continue;
+        }
+        if n >= limit {
+            break;
+        }
+        let beh: serde_json::Value = match serde_json::from_str(&line) {
+            Ok(v) => v,
+            Err(e) => {
+                eprintln!("bad behaviour line {idx}: {e}");
+                std::process::exit(2);
+            }
+        };
+        n += 1;
+        for (k, ep) in epilogues.iter().enumerate() {
+            let r = replay::replay(&beh, idx, ep);
+            runs += 1;
+            out.write_all(log::take().as_bytes()).unwrap();
+            if k == 0 {
+                ops_total += r.ops_done;
+                skipped += r.skipped;
+                if r.diverged {
+                    diverged += 1;
+                }
+                if !r.drift.is_empty() {
+                    drift_count += 1;
+                    if drift_samples.len() < 10 {
+                        drift_samples.push(serde_json::json!({
+                            "beh": idx, "fields": r.drift, "real": r.real_final,
+                            "model": beh.get("final"), "ops": beh.get("ops")}));
+                    }
+                }
+            }
+        }
+    }
+    ALLOC.reset();
+    out.flush().unwrap();
+    let report = serde_json::json!({
+        "behaviours": n, "runs": runs, "ops": ops_total, "events": log::count(),
+        "skipped_ops": skipped, "diverged": diverged, "drift": drift_count, "drift_samples": drift_samples,
+    });
+    std::fs::write(&report_path, serde_json::to_string_pretty(&report).unwrap()).unwrap();
+}
